@@ -478,7 +478,12 @@ func (w *world) query(authed bool) Obs {
 
 func pngBytes(seed int) []byte {
 	img := image.NewRGBA(image.Rect(0, 0, 2+seed%3, 2))
-	img.Pix[0] = byte(seed)
+	for i := range img.Pix {
+		img.Pix[i] = byte(seed*31 + i) // every seed another picture
+		if i%4 == 3 {
+			img.Pix[i] = 255 // opaque: the encoder keeps the colours
+		}
+	}
 	var buf bytes.Buffer
 	hx.Must(png.Encode(&buf, img))
 	return buf.Bytes()
